@@ -1051,8 +1051,28 @@ def cs_cases(seed, n, prefix="cs"):
         ops = ["SEED %d" % (i % 23), "CT " + T, "CS %s %s 10 ~" % (Sn, T)]
         occ, blocked, live, nid, advs, deleted = 0, set(), [], 0, 0, False
         heavy_fill = rng.random() < 0.5
+        if rng.random() < 0.5:
+            # start with 1-3 consumers asleep on the empty subscription
+            k = rng.randrange(1, 4)
+            for _ in range(k):
+                nid += 1
+                live.append(nid)
+                ops.append("XN %d %s %d" % (nid, Sn, rng.choice([1, 1, 2, 5])))
+            ops += ["XQ %d" % c for c in live] + ["XT"] + ["XQ %d" % c for c in live]
         for _ in range(rng.randrange(6, 40)):
             x = rng.random()
+            if x < 0.07 and live and not blocked and not deleted:
+                # a wake-up that meets a full mailbox: publish, fill the mailbox, poll one consumer (it consumes
+                # the notification if it was the one woken and then waits for room), and often drop it there
+                c = rng.choice(live)
+                ops += ["PUBN %s 1 78" % T, "XF %s 16" % Sn, "XQ %d" % c]
+                occ = 16
+                blocked.add(c)
+                if rng.random() < 0.7:
+                    ops.append("XD %d" % c)
+                    live.remove(c)
+                    blocked.discard(c)
+                continue
             if x < 0.16 and len(live) < 5 and not deleted:
                 nid += 1
                 live.append(nid)
